@@ -1691,7 +1691,9 @@ class PyCdlib:
                         else:
                             raise pycdlibexception.PyCdlibInternalError('Only expected two EFI sections')
                         num_seen_efi += 1
-                    elif enc.platform_id == 0:
+                    elif enc.entry is self.eltorito_boot_catalog.initial_entry:
+                        # The MBR starts the default entry, not a later
+                        # section that happens to be for the same platform.
                         self.isohybrid_mbr.update_rba(current_extent)
 
                 current_extent = self._set_inode(enc.entry.inode, current_extent,
